@@ -237,7 +237,9 @@ impl<T> Channel<T> {
                 // the matching receive, so we need to update the sender's clock with the receiver's.
                 if self.is_rendezvous() {
                     let recv_clock = s.get_clock(tid).clone();
-                    s.update_clock(&recv_clock);
+                    // (no second increment: see below)
+                    let me = s.current().id();
+                    s.get_clock_mut(me).update(&recv_clock);
                 }
             });
         }
@@ -252,7 +254,13 @@ impl<T> Channel<T> {
         if !self.is_rendezvous() {
             if let Some(receiver_clock) = &mut state.receiver_clock {
                 let recv_clock = receiver_clock.remove(0);
-                ExecutionState::with(|s| s.update_clock(&recv_clock));
+                // The sender's clock was already incremented when the message was time-stamped above; a second
+                // increment here would make the sender's clock after `send` exceed the time stamp the receiver
+                // gets, so that the matching receive would not be ordered after the send.
+                ExecutionState::with(|s| {
+                    let me = s.current().id();
+                    s.get_clock_mut(me).update(&recv_clock)
+                });
             }
         }
 
